@@ -527,6 +527,24 @@ func (vc *FuncVC) havocLoop(st *State, li *loopInfo) {
 				if o, ok := old.(Term); ok {
 					st.assume(Ge(t, o))
 				}
+				// structural invariant of `for i := range x`: the header is  i' = i+1; if i' < n  with n fixed before the
+				// loop, the index starts at -1 and is only ever replaced by i': hence i+1 <= n at every visit of the header.
+				for _, hin := range li.header.Instrs {
+					cmp, ok := hin.(*ssa.BinOp)
+					if !ok || cmp.Op != token.LSS {
+						continue
+					}
+					add, ok := cmp.X.(*ssa.BinOp)
+					if !ok || add.Op != token.ADD || add.X != ssa.Value(phi) {
+						continue
+					}
+					if ni, isInstr := cmp.Y.(ssa.Instruction); isInstr && li.blocks[ni.Block()] {
+						continue
+					}
+					if nt, ok := vc.get(st, cmp.Y).(Term); ok && nt.Sort == SInt {
+						st.assume(Le(Add(t, IntLit(1)), nt))
+					}
+				}
 			}
 		}
 		fr.regs[phi] = nv
